@@ -32,26 +32,34 @@ pub open spec fn dec64<B: ByteOrder>(s: Seq<u8>) -> u64 { if B::is_le() { de64(s
 
 pub trait Write: Sized {
     spec fn sink(&self) -> Seq<u8>;
+    /// true for in-memory sinks (Vec<u8>): writes never fail and never change this flag
+    spec fn infallible(&self) -> bool;
     fn write_all(&mut self, buf: &[u8]) -> (r: Result<(), IoError>)
         ensures r is Ok ==> final(self).sink() == old(self).sink() + buf@,
-                r is Err ==> old(self).sink().is_prefix_of(final(self).sink());
+                r is Err ==> old(self).sink().is_prefix_of(final(self).sink()),
+                final(self).infallible() == old(self).infallible(), old(self).infallible() ==> r is Ok;
     fn write_u8(&mut self, x: u8) -> (r: Result<(), IoError>)
         ensures r is Ok ==> final(self).sink() == old(self).sink() + seq![x],
-                r is Err ==> old(self).sink().is_prefix_of(final(self).sink());
+                r is Err ==> old(self).sink().is_prefix_of(final(self).sink()),
+                final(self).infallible() == old(self).infallible(), old(self).infallible() ==> r is Ok;
     fn write_u16<B: ByteOrder>(&mut self, x: u16) -> (r: Result<(), IoError>)
         ensures r is Ok ==> final(self).sink() == old(self).sink() + enc16::<B>(x),
-                r is Err ==> old(self).sink().is_prefix_of(final(self).sink());
+                r is Err ==> old(self).sink().is_prefix_of(final(self).sink()),
+                final(self).infallible() == old(self).infallible(), old(self).infallible() ==> r is Ok;
     fn write_u32<B: ByteOrder>(&mut self, x: u32) -> (r: Result<(), IoError>)
         ensures r is Ok ==> final(self).sink() == old(self).sink() + enc32::<B>(x),
-                r is Err ==> old(self).sink().is_prefix_of(final(self).sink());
+                r is Err ==> old(self).sink().is_prefix_of(final(self).sink()),
+                final(self).infallible() == old(self).infallible(), old(self).infallible() ==> r is Ok;
     fn write_u64<B: ByteOrder>(&mut self, x: u64) -> (r: Result<(), IoError>)
         ensures r is Ok ==> final(self).sink() == old(self).sink() + enc64::<B>(x),
-                r is Err ==> old(self).sink().is_prefix_of(final(self).sink());
+                r is Err ==> old(self).sink().is_prefix_of(final(self).sink()),
+                final(self).infallible() == old(self).infallible(), old(self).infallible() ==> r is Ok;
 }
 
 // Vec<u8> as a sink: std's impl never fails.
 impl Write for Vec<u8> {
     open spec fn sink(&self) -> Seq<u8> { self@ }
+    open spec fn infallible(&self) -> bool { true }
     #[verifier::external_body]
     fn write_all(&mut self, buf: &[u8]) -> (r: Result<(), IoError>)
         ensures r is Ok
@@ -69,7 +77,8 @@ impl Write for Vec<u8> {
 // A source is a ghost pair (all bytes of the underlying stream, position). Reads never change `all`.
 // read_exact and the fixed-width readers fail with UnexpectedEof iff fewer bytes remain (std contract for
 // in-memory and file readers); `may_fail()` says whether the source can also fail for other reasons (real I/O).
-pub struct RS { pub all: Seq<u8>, pub pos: int, pub may_fail: bool }
+// id: ghost identity of the underlying stream (a path identity for files); reads never change it
+pub struct RS { pub all: Seq<u8>, pub pos: int, pub may_fail: bool, pub id: int }
 pub trait Read: Sized {
     spec fn rs(&self) -> RS;
     fn read_exact(&mut self, buf: &mut [u8]) -> (r: Result<(), IoError>)
@@ -102,7 +111,7 @@ pub trait Read: Sized {
 }
 /// what every read preserves
 pub open spec fn read_frame(o: RS, n: RS) -> bool {
-    n.all == o.all && n.may_fail == o.may_fail && o.pos <= n.pos <= n.all.len()
+    n.all == o.all && n.may_fail == o.may_fail && n.id == o.id && o.pos <= n.pos <= n.all.len()
 }
 pub open spec fn read_ok(o: RS, n: RS, len: int) -> bool {
     o.pos + len <= o.all.len() && n.pos == o.pos + len
@@ -117,6 +126,7 @@ impl CompressionType {
     pub fn encode_into<W: Write>(&self, writer: &mut W) -> (r: Result<(), lsm_tree::Error>)
         ensures r is Ok ==> final(writer).sink() == old(writer).sink() + comp_bytes(*self),
                 r is Err ==> old(writer).sink().is_prefix_of(final(writer).sink()),
+                final(writer).infallible() == old(writer).infallible(), old(writer).infallible() ==> r is Ok,
     { unimplemented!() }
     #[verifier::external_body]
     pub fn decode_from<R: Read>(reader: &mut R) -> (r: Result<CompressionType, lsm_tree::Error>)
